@@ -11,6 +11,15 @@ func messagesSize(ms []Message) uint16 {
 	return l
 }
 
+// messagesSizeInt returns the size of all messages including the headers without 16 bit wrap-around
+func messagesSizeInt(ms []Message) int {
+	l := 0
+	for i := range ms {
+		l += int(RSCP_DATA_HEADER_SIZE) + ms[i].valueSizeInt()
+	}
+	return l
+}
+
 // validateResponses checks the integrity of the response
 // each request must contain a valid tag and data type and the data type must match the value
 func validateResponses(messages []Message) error {
